@@ -284,7 +284,10 @@ where
         cell_key: CellKey,
         vertex: Vertex<K::Scalar, U, D>,
     ) -> Result<FlipInfo<D>, FlipError> {
-        self.tri.flip_k1_insert(cell_key, vertex)
+        // A vertex enters behind the duplicate-detection index: go through the cache-dropping
+        // accessor so the index (and the locate hint) are rebuilt on next use.
+        self.triangulation_mut_for_edit()
+            .flip_k1_insert(cell_key, vertex)
     }
 
     fn flip_k1_remove(&mut self, vertex_key: VertexKey) -> Result<FlipInfo<D>, FlipError> {
